@@ -165,7 +165,10 @@ namespace igris
 
             if (it == storage.end())
             {
-                return T();
+                // a reference must outlive the call: missing keys read as a
+                // shared default-constructed value
+                static const T missing = T();
+                return missing;
             }
 
             return it->second;
